@@ -23,6 +23,8 @@ type zzImpl struct {
 	retMap map[string]int32
 	retVal value.Value
 	retVV  [][]uint16
+	gr     map[string][]int32
+	retGr  map[string][]int32
 }
 
 func (z *zzImpl) Activate(activation bus.Activation, helper ContainersSignalHelper) error { return nil }
@@ -52,6 +54,11 @@ func (z *zzImpl) Wrap(val value.Value) (value.Value, error) {
 	z.val = val
 	return z.retVal, nil
 }
+func (z *zzImpl) Groups(gr map[string][]int32) (map[string][]int32, error) {
+	z.calls++
+	z.gr = gr
+	return z.retGr, nil
+}
 func (z *zzImpl) Nested(vv [][]uint16) ([][]uint16, error) {
 	z.calls++
 	z.vv = vv
@@ -71,7 +78,23 @@ func zzSamePoint(a, b Point) bool {
 func C05Containers() {
 	im := &zzImpl{}
 	p := MakeContainers(nil, zzServe("Containers", ContainersObject(im), (&stubContainers{}).metaObject()))
-	switch sym.Choose("method", 6) {
+	switch sym.Choose("method", 7) {
+	case 5:
+		// a map of lists, two entries with lists of the same length, as argument and as result
+		gr := map[string][]int32{"a": {sym.I32("a0"), sym.I32("a1")}, "b": {sym.I32("b0"), sym.I32("b1")}}
+		im.retGr = map[string][]int32{"c": {sym.I32("c0"), sym.I32("c1")}, "d": {sym.I32("d0"), sym.I32("d1")}}
+		got, err := p.Groups(gr)
+		sym.Assert(err == nil, "groups/call-ok")
+		sym.Assert(len(im.gr) == 2 && len(im.gr["a"]) == 2 && len(im.gr["b"]) == 2, "groups/argument-shape")
+		if len(im.gr["a"]) == 2 && len(im.gr["b"]) == 2 {
+			sym.Assert(sym.And(sym.And(im.gr["a"][0] == gr["a"][0], im.gr["a"][1] == gr["a"][1]),
+				sym.And(im.gr["b"][0] == gr["b"][0], im.gr["b"][1] == gr["b"][1])), "groups/argument")
+		}
+		sym.Assert(len(got) == 2 && len(got["c"]) == 2 && len(got["d"]) == 2, "groups/result-shape")
+		if len(got["c"]) == 2 && len(got["d"]) == 2 {
+			sym.Assert(sym.And(sym.And(got["c"][0] == im.retGr["c"][0], got["c"][1] == im.retGr["c"][1]),
+				sym.And(got["d"][0] == im.retGr["d"][0], got["d"][1] == im.retGr["d"][1])), "groups/result")
+		}
 	case 0:
 		n := sym.Choose("n", 3)
 		vals := make([]int32, n)
